@@ -19,8 +19,10 @@ EXTENDS CrdtJson, Json, IOUtils, TLC
 
 Rec == ndJsonDeserialize(IOEnv.TRACE)
 
-VARIABLES l, run, conf, acc, inflight, naccepted, nconfirmed, segs, man, gcBefore, overlap, fActive, cActive, accTombs, accTombs
-tvars == <<l, run, conf, acc, inflight, naccepted, nconfirmed, segs, man, gcBefore, overlap, fActive, cActive, accTombs>>
+VARIABLES l, run, conf, acc, inflight, naccepted, nconfirmed, segs, man, gcBefore, overlap, fActive, cActive, accTombs,
+          segc,   \* segment id -> its content as key -> RV (merge of the segment's deltas per key), when it was logged
+          cin     \* ids of the segments the compaction in progress has read
+tvars == <<l, run, conf, acc, inflight, naccepted, nconfirmed, segs, man, gcBefore, overlap, fActive, cActive, accTombs, segc, cin>>
 
 Dev(d) == d \in AsBuilt
 Verdict(what) == PrintT(<<"VERDICT", ToJson([run |-> run, l |-> l, v |-> "bad", what |-> what])>>)
@@ -34,7 +36,7 @@ MergeAll(f, g) == [k \in DOMAIN f \cup DOMAIN g |->
 
 TraceInit == /\ l = 1 /\ run = 0 /\ conf = NoFun /\ acc = NoFun /\ inflight = NoFun
              /\ naccepted = 0 /\ nconfirmed = 0 /\ segs = NoFun /\ man = {} /\ gcBefore = 0
-             /\ overlap = FALSE /\ fActive = FALSE /\ cActive = FALSE /\ accTombs = NoFun
+             /\ overlap = FALSE /\ fActive = FALSE /\ cActive = FALSE /\ accTombs = NoFun /\ segc = NoFun /\ cin = {}
 
 Keep(vs) == UNCHANGED vs
 
@@ -52,6 +54,19 @@ CrashOk(ev) ==
             \/ (Dev("gc_ignores_outside") /\ GcLegal(k))          \* an older value resurfaced after GC
        ELSE GcLegal(k)
   /\ \A k \in DOMAIN R : k \in DOMAIN acc /\ Absorbs(acc[k], R[k])
+(* content of a segment: key -> merge of its deltas for the key *)
+RECURSIVE SegFold(_, _, _)
+SegFold(ds, i, f) == IF i > Len(ds) THEN f ELSE SegFold(ds, i + 1, MergeInto(f, ds[i][1], JRv(ds[i][2])))
+SegContent(ds) == SegFold(ds, 1, NoFun)
+RECURSIVE MergeSegs(_, _)
+MergeSegs(ids, f) == IF ids = {} THEN f ELSE LET i == CHOOSE x \in ids : TRUE IN MergeSegs(ids \ {i}, MergeAll(f, segc[i]))
+(* C13 at the source: what a compaction writes is the per-key merge of what it read; a key may be *)
+(* missing from the output only if that merge is a tombstone older than the GC horizon           *)
+CompactOutputOk(out) ==
+  LET In == MergeSegs(cin, NoFun) IN
+  /\ DOMAIN out \subseteq DOMAIN In
+  /\ \A k \in DOMAIN In : IF k \in DOMAIN out THEN Obs(out[k]) = Obs(In[k])
+                           ELSE IsTomb(In[k]) /\ In[k].ts[1] < gcBefore
 ManifestSound == \A i \in man : i \in DOMAIN segs /\ segs[i] = "ok"
 Tolerated == Dev("flush_compaction_race") /\ overlap
 
@@ -59,7 +74,7 @@ Step(ev) ==
   \/ /\ ev.a = "reset"
      /\ run' = ev.run /\ conf' = NoFun /\ acc' = NoFun /\ inflight' = NoFun /\ naccepted' = 0 /\ nconfirmed' = 0
      /\ segs' = NoFun /\ man' = {} /\ gcBefore' = 0 /\ overlap' = FALSE /\ fActive' = FALSE /\ cActive' = FALSE
-     /\ accTombs' = NoFun
+     /\ accTombs' = NoFun /\ segc' = NoFun /\ cin' = {}
   \/ /\ ev.a = "push"
      /\ IF ev.ok THEN /\ acc' = MergeInto(acc, ev.k, JRv(ev.rv))
                       /\ inflight' = MergeInto(inflight, ev.k, JRv(ev.rv))
@@ -68,24 +83,24 @@ Step(ev) ==
                                       THEN Upd(accTombs, ev.k, (IF ev.k \in DOMAIN accTombs THEN accTombs[ev.k] ELSE {}) \cup {JRv(ev.rv).ts})
                                       ELSE accTombs
         ELSE UNCHANGED <<acc, inflight, naccepted, accTombs>>
-     /\ Keep(<<run, conf, nconfirmed, segs, man, gcBefore, overlap, fActive, cActive>>)
+     /\ Keep(<<run, conf, nconfirmed, segs, man, gcBefore, overlap, fActive, cActive, segc, cin>>)
   \/ /\ ev.a = "flush_begin"
      /\ fActive' = TRUE /\ overlap' = (overlap \/ cActive)
-     /\ Keep(<<run, conf, acc, inflight, naccepted, nconfirmed, segs, man, gcBefore, cActive, accTombs>>)
+     /\ Keep(<<run, conf, acc, inflight, naccepted, nconfirmed, segs, man, gcBefore, cActive, accTombs, segc, cin>>)
   \/ /\ ev.a = "flush_end"
      /\ fActive' = FALSE
      /\ IF ev.ok THEN /\ conf' = MergeAll(conf, inflight) /\ inflight' = NoFun /\ nconfirmed' = naccepted
                       /\ (ev.pending # 0 => Verdict("flush ok but deltas still pending"))
         ELSE /\ UNCHANGED <<conf, inflight, nconfirmed>>
              /\ (ev.pending # naccepted - nconfirmed => Verdict("failed flush silently dropped accepted deltas"))
-     /\ Keep(<<run, acc, naccepted, segs, man, gcBefore, overlap, cActive, accTombs>>)
+     /\ Keep(<<run, acc, naccepted, segs, man, gcBefore, overlap, cActive, accTombs, segc, cin>>)
   \/ /\ ev.a = "compact_begin"
      /\ cActive' = TRUE /\ overlap' = (overlap \/ fActive)
      /\ gcBefore' = IF ev.gc_before > gcBefore THEN ev.gc_before ELSE gcBefore
-     /\ Keep(<<run, conf, acc, inflight, naccepted, nconfirmed, segs, man, fActive, accTombs>>)
+     /\ cin' = {} /\ Keep(<<run, conf, acc, inflight, naccepted, nconfirmed, segs, man, fActive, accTombs, segc>>)
   \/ /\ ev.a = "compact_end"
      /\ cActive' = FALSE
-     /\ Keep(<<run, conf, acc, inflight, naccepted, nconfirmed, segs, man, gcBefore, overlap, fActive, accTombs>>)
+     /\ Keep(<<run, conf, acc, inflight, naccepted, nconfirmed, segs, man, gcBefore, overlap, fActive, accTombs, segc, cin>>)
   \/ /\ ev.a = "call"
      /\ segs' = IF ev.op = "put" /\ ev.kind = "seg" /\ ev.res # "fail"
                   THEN Upd(segs, ev.id, IF ev.res = "ok" THEN "ok" ELSE "partial")
@@ -93,6 +108,10 @@ Step(ev) ==
                   THEN [j \in DOMAIN segs \ {ev.id} |-> segs[j]]
                 ELSE segs
      /\ man' = IF ev.op = "rename" /\ ev.res \in {"ok", "applied"} THEN Range(ev.segs) ELSE man
+     /\ segc' = IF ev.op = "put" /\ ev.kind = "seg" /\ ev.res = "ok" /\ "deltas" \in DOMAIN ev THEN Upd(segc, ev.id, SegContent(ev.deltas)) ELSE segc
+     /\ cin' = IF ev.who = "C" /\ ev.op = "get" /\ ev.kind = "seg" /\ ev.res = "ok" THEN cin \cup {ev.id} ELSE cin
+     /\ (ev.who = "C" /\ ev.op = "put" /\ ev.kind = "seg" /\ ev.res = "ok" /\ "deltas" \in DOMAIN ev /\ cin \subseteq DOMAIN segc /\ ~CompactOutputOk(SegContent(ev.deltas))
+           => Verdict("the segment written by a compaction is not the merge of the segments it read (beyond dropping expired tombstones)"))
      /\ Keep(<<run, conf, acc, inflight, naccepted, nconfirmed, gcBefore, overlap, fActive, cActive, accTombs>>)
   \/ /\ ev.a = "crashcheck"
      /\ IF Tolerated THEN TRUE
@@ -100,14 +119,14 @@ Step(ev) ==
         ELSE IF ~ManifestSound THEN Verdict("manifest references a missing or partial object")
         ELSE IF ~CrashOk(ev) THEN Verdict("recovered state loses confirmed data or invents data")
         ELSE TRUE
-     /\ Keep(<<run, conf, acc, inflight, naccepted, nconfirmed, segs, man, gcBefore, overlap, fActive, cActive, accTombs>>)
+     /\ Keep(<<run, conf, acc, inflight, naccepted, nconfirmed, segs, man, gcBefore, overlap, fActive, cActive, accTombs, segc, cin>>)
   \/ /\ ev.a = "panic"
      /\ Verdict("panic in code under test")
-     /\ Keep(<<run, conf, acc, inflight, naccepted, nconfirmed, segs, man, gcBefore, overlap, fActive, cActive, accTombs>>)
+     /\ Keep(<<run, conf, acc, inflight, naccepted, nconfirmed, segs, man, gcBefore, overlap, fActive, cActive, accTombs, segc, cin>>)
 
 TraceNext ==
   \/ l <= Len(Rec) /\ Step(Rec[l]) /\ l' = l + 1
   \/ l = Len(Rec) + 1 /\ PrintT(<<"VALIDATED", Len(Rec)>>) /\ l' = l + 1
-     /\ Keep(<<run, conf, acc, inflight, naccepted, nconfirmed, segs, man, gcBefore, overlap, fActive, cActive, accTombs>>)
+     /\ Keep(<<run, conf, acc, inflight, naccepted, nconfirmed, segs, man, gcBefore, overlap, fActive, cActive, accTombs, segc, cin>>)
 TraceSpec == TraceInit /\ [][TraceNext]_tvars
 =============================================================================
